@@ -5,6 +5,10 @@ HOME = os.path.dirname(os.path.dirname(os.path.abspath(__file__)))
 sys.path.insert(0, HOME)
 
 CHECKS = {
+ "C03": dict(engine="E4 contract sweep + E1 native", technique="runtime contract monitor on the real derivative() methods against Richardson finite differences of independent energy functions (own Ewald energy with two splittings), metamorphic relations on the real code, bitwise clone (copy/deepcopy/pickle/dill) comparison, ASan+UBSan build and valgrind driver for the C lattice sum",
+    level="exploration", ref="DESIGN.md §3 C03",
+    text="Tens of thousands of (potential, separation, direction, charges, speed) cases incl. points 1e-12..1e-3 L from faces/edges/corners, near the origin, on axes/diagonals: inverse power, LJ, displaced even power, periodic 1/r bound, bending (three derivatives, sum zero) and the merged-image Coulomb potential are compared with gradients of independently written energies; the lattice sum must not depend on the Ewald splitting, be periodic across faces, odd, transverse-symmetric, permutation-consistent, linear in charges and speed, and scale with the box; all ways of cloning the C object must agree bit for bit; cut-offs 0..12 are constructed/copied/destroyed under ASan and valgrind.",
+    note="Finite-difference tolerance 1e-7/1e-8 of |q|(1/L^2+1/r^2). Periodicity is judged across the faces of the minimum-image cell only (the routine truncates its real-space sum around n=0 by design)."),
  "C02": dict(engine="E4 contract sweep + E1 native", technique="runtime contract monitor on the real displacement() methods with an independent energy-space oracle (own U(r), monotone pieces from geometry, periodic re-imaging), hostile boundary-directed inputs; C routine also under AddressSanitizer+UBSan",
     level="exploration", ref="DESIGN.md §3 C02",
     text="5e5..3e6 generated (potential, direction, speed, charges, separation, budget) tuples - separations on/around the minimum sphere, tangent, head-on, at +-L/2, tiny; budgets at the oracle's branch thresholds +-4ulp, denormal - go through inverse power, Lennard-Jones, displaced even power, the periodic 1/r C routine, hard sphere/dipole (arbitrary velocities) and the cell-bounding potential. Totality and sign are asserted for all cases, E_up(d)=budget / infinity iff never reached / first crossing for well-conditioned ones.",
